@@ -131,7 +131,7 @@ structure TestDesc where
 def extractTest (node : Xml) : Option TestDesc :=
   let name? : Option String :=
     match attrib node "Label" with
-    | some l => l.text?
+    | some l => some (l.text?.getD "")      -- `text().unwrap_or("")`: an empty label is the label ""
     | none => some "(unnamed)"
   match name? with
   | none => none
@@ -144,9 +144,7 @@ def extractTest (node : Xml) : Option TestDesc :=
         | none => none
         | some ds =>
           if ds.tag != "dataString" then none
-          else match ds.text? with
-            | none => none
-            | some src => some ⟨name, src⟩
+          else some ⟨name, ds.text?.getD ""⟩    -- an empty `dataString` is the source ""
 
 /-- `dig::File` -/
 structure DigFile where
